@@ -5,6 +5,8 @@
 package c12
 
 import (
+	"bufio"
+	"crypto/tls"
 	"encoding/hex"
 	"encoding/json"
 	"errors"
@@ -50,6 +52,8 @@ type scenario struct {
 	// connection is open. 1, 2 = bystander opened before the judged connection, 3 = after it; the login
 	// always happens once both are open. The judged connection's expectations do not change: a login counts
 	// "on the same connection" only.
+	// TLS: the ftp control connection is upgraded with AUTH TLS (a real handshake) before anything else is sent
+	TLS    bool    `json:"tls,omitempty"`
 	By     int     `json:"bystander,omitempty"`
 	ByCred attempt `json:"bystander_credential,omitempty"`
 }
@@ -144,6 +148,15 @@ func scenarios(tier string, seed int64) []scenario {
 			as = append(as, attempt{User: r.PickS(ftpUsers), Pass: r.PickS(ftpPw)})
 		}
 		out = append(out, scenario{Svc: "ftp", Attempts: as})
+	}
+	rl0 := core.NewRng(seed, "C12/ftptls", 0)
+	// ftp sessions on a protected control connection (AUTH TLS first): the gate and the login rule are the same
+	for i := 0; i < 16; i++ {
+		var as []attempt
+		for j := rl0.Range(1, 3); j > 0; j-- {
+			as = append(as, attempt{User: rl0.PickS(ftpUsers), Pass: rl0.PickS(ftpPw)})
+		}
+		out = append(out, scenario{Svc: "ftp", Attempts: as, TLS: true})
 	}
 	// many failed attempts on one ssh connection before the configured pair: an attempt's outcome does not
 	// depend on how many failed before it
@@ -459,7 +472,80 @@ var ftpGated = []string{"CWD /", "CDUP", "MKD x", "RMD x", "DELE x", "RNFR x", "
 // once logged in, transfer commands would wait for a data connection: probe with the others
 var ftpGatedNoData = []string{"CWD /", "CDUP", "RMD nonexistent", "DELE nonexistent", "RNFR nonexistent", "MDTM x", "SIZE x"}
 
+// runFTPTLS is runFTP over a control connection that was upgraded with AUTH TLS first.
+func runFTPTLS(srv *lab.Server, sc scenario) scnObs {
+	var ob scnObs
+	connSeq++
+	port := 20000 + connSeq%40000
+	ev0 := lab.Events.Len()
+	cc := srv.L.DialTCP(lab.TCPAddr("10.0.0.1", 21), lab.TCPAddr("203.0.113.12", port))
+	defer cc.Close()
+	cc.SetDeadline(time.Now().Add(20 * time.Second))
+	br := bufio.NewReader(cc)
+	br.ReadString('\n') // banner
+	fmt.Fprintf(cc, "AUTH TLS\r\n")
+	if l, _ := br.ReadString('\n'); !strings.HasPrefix(l, "234") {
+		ob.Err = "AUTH TLS answered " + strings.TrimSpace(l)
+		return ob
+	}
+	tc := tls.Client(cc, &tls.Config{InsecureSkipVerify: true})
+	if err := tc.Handshake(); err != nil {
+		ob.Err = "tls handshake: " + err.Error()
+		return ob
+	}
+	tr := bufio.NewReader(tc)
+	rt := func(line string) string {
+		fmt.Fprintf(tc, "%s\r\n", line)
+		tc.SetReadDeadline(time.Now().Add(2 * time.Second))
+		for {
+			l, err := tr.ReadString('\n')
+			if err != nil {
+				return ""
+			}
+			if len(l) >= 4 && l[3] == ' ' {
+				return l
+			}
+			if strings.TrimSpace(l) == "" {
+				continue
+			}
+		}
+	}
+	gi := 0
+	in := false
+	gate := func() string {
+		gi++
+		probe := ftpGatedNoData[(gi+connSeq)%len(ftpGatedNoData)]
+		rep := rt(probe)
+		if strings.HasPrefix(rep, "530") {
+			return "refused"
+		}
+		if rep == "" {
+			return "noreply"
+		}
+		return "accepted:" + strings.TrimSpace(rep)[:3]
+	}
+	_ = in
+	for _, a := range sc.Attempts {
+		var ao attemptObs
+		ao.GateBefore = gate()
+		rt("USER " + a.User)
+		rep := rt("PASS " + a.Pass)
+		ao.Made = true
+		ao.Reply = strings.TrimSpace(rep)
+		ao.Success = strings.HasPrefix(rep, "230")
+		ao.GateAfter = gate()
+		ob.Attempts = append(ob.Attempts, ao)
+	}
+	tc.Close()
+	lab.Events.WaitFor(ev0, func(evs []lab.Captured) bool { return len(ftpAuth(evs, port)) >= len(sc.Attempts) }, 2*time.Second)
+	ob.AuthEvs = ftpAuth(lab.Events.Since(ev0), port)
+	return ob
+}
+
 func runFTP(srv *lab.Server, sc scenario) scnObs {
+	if sc.TLS {
+		return runFTPTLS(srv, sc)
+	}
 	var ob scnObs
 	connSeq++
 	port := 20000 + connSeq%40000
